@@ -23,6 +23,7 @@ func checkC13(w *World, r *Report) {
 	c13Forwarding(w, r, ctxI)
 	c13Lookup(w, r, rfI)
 	c13EnvoyRawHeaders(w, r)
+	c13PipelineErrorFirst(w, r, ctxI)
 }
 
 // declaredMethod returns the method `name` declared on t itself (not promoted), or nil.
@@ -254,6 +255,24 @@ func c13RawPath(w *World, r *Report, ctxI *types.Interface) {
 				}
 			}
 			r.Ob(ri, key+"|rawpath-always-set", lit.Pos(), okA, msgA)
+			// Envoy hands over the request target: path, possibly followed by '?' and the query. It
+			// becomes the raw path only through a cut at '?', on every path
+			if rawV != nil {
+				direct, viaEnvoy := false, false
+				for _, o := range w.Origins(rawV, nil) {
+					if c, _ := resultOfCall(o); c != nil && strings.HasSuffix(callName(c.Common()), "AttributeContext_HttpRequest.GetPath") {
+						direct, viaEnvoy = true, true
+					}
+				}
+				for _, o := range w.Origins(rawV, through) {
+					if c, _ := resultOfCall(o); c != nil && strings.HasSuffix(callName(c.Common()), "AttributeContext_HttpRequest.GetPath") {
+						viaEnvoy = true
+					}
+				}
+				if viaEnvoy {
+					r.Ob(ri, key+"|envoy-target-cut-at-query", lit.Pos(), !direct, "the path attribute of the Envoy request (the request target, which may carry '?query') can become the raw path without being cut at '?': path, captures and rule lookup then include the query string")
+				}
+			}
 			// if Path derives from PathUnescape(x), RawPath must be that x
 			for _, o := range w.Origins(pathV, nil) {
 				if c, _ := resultOfCall(o); c != nil && callName(c.Common()) == "net/url.PathUnescape" {
@@ -512,5 +531,61 @@ func c13EnvoyRawHeaders(w *World, r *Report) {
 	if n == 0 {
 		r.Note("C13.5: no direct lookup in Envoy's raw header map in the module (all reads go through the canonicalised copy)")
 		r.Ob(ri, "no-raw-lookups", token.NoPos, true, "")
+	}
+}
+
+// ---- C13.6: a recorded pipeline error decides the outcome at every entry point ----------------------
+//
+// An error handler that takes over (redirect, www_authenticate) records its answer as the pipeline
+// error and lets the rule return "nothing". All entry points must then answer with that recorded
+// error. A Finalize that first checks something else (the missing upstream) and reports that
+// instead answers 500 where the other entry points answer 302 / 401. Decided per Finalize: an error
+// other than the recorded one is returned only where the recorded one was found nil.
+func c13PipelineErrorFirst(w *World, r *Report, ctxI *types.Interface) {
+	ri := r.Rule("C13.6", 3, "at every entry point Finalize reports an error of its own only where no pipeline error is recorded (the recorded outcome of the error handlers takes precedence)")
+	n := 0
+	for _, t := range w.Implementors(ctxI) {
+		fin := w.Method(t, "Finalize")
+		if fin == nil || fin.Blocks == nil || w.isMockFn(fin) || derefNamed(fin.Signature.Recv().Type()) != t {
+			continue
+		}
+		pf := pipelineErrField(w, t)
+		if pf == nil {
+			continue
+		}
+		n++
+		r.Analysed(w.FnName(fin))
+		isPE := func(v ssa.Value) bool {
+			if _, f := fieldLoad(v); f == pf {
+				return true
+			}
+			if c, _ := resultOfCall(v); c != nil {
+				if callee := c.Common().StaticCallee(); callee != nil && isGetterOf(callee, pf) {
+					return true
+				}
+			}
+			return false
+		}
+		ok, pos := true, fin.Pos()
+		for _, ret := range returnsOf(fin) {
+			last := ret.Results[len(ret.Results)-1]
+			for _, s := range w.Sources(last, ret.Block()) {
+				if s.Kind == "nil" || isPE(s.V) {
+					continue
+				}
+				// an error of Finalize's own (fresh, or the result of a step it performs)
+				at := s.At
+				if s.To == nil {
+					at = ret.Block()
+				}
+				if !(onlyVia(fin, at, nilOf(isPE)) || srcOnlyVia(fin, s, nilOf(isPE))) {
+					ok, pos = false, ret.Pos()
+				}
+			}
+		}
+		r.Ob(ri, w.FnName(fin)+"|pipeline-error-first", pos, ok, "Finalize can return an error of its own although a pipeline error is recorded: what an error handler decided (a redirect, a challenge) is replaced by that error at this entry point only")
+	}
+	if n == 0 {
+		r.Undecided(ri, "no Finalize found")
 	}
 }
